@@ -24,7 +24,12 @@ const (
 )
 
 // SpecDir is where the TLA+ modules live.
-var SpecDir = "/verif/spec"
+var SpecDir = func() string {
+	if d := os.Getenv("VERIF_SPEC_DIR"); d != "" {
+		return d
+	}
+	return "/verif/spec"
+}()
 
 type Options struct {
 	Module   string            // module name, e.g. "StoreMC"
